@@ -3,6 +3,7 @@
 // flattened data, used_elements counts the distinct indices, permute renumbers.
 #include "feat_helpers.hpp"
 #include <kernel/lafem/sparse_vector.hpp>
+#include <kernel/lafem/sparse_vector_blocked.hpp>
 using namespace FEAT; using namespace vh;
 static int g_level = 1;
 
@@ -51,6 +52,35 @@ void sv_cases(Index n, const std::vector<Index>& seq)
 }
 
 template<typename DT>
+void svb_cases(Index n, const std::vector<Index>& seq)
+{
+  constexpr int BS = 2; typedef LAFEM::SparseVectorBlocked<DT, Index, BS> SV; typedef Tiny::Vector<DT, BS> VT;
+  std::string cfg = "n=" + str(n) + " insert[" + join(seq) + "]";
+  std::vector<VT> vals; for(size_t k = 0; k < seq.size(); ++k) { VT b; for(int c = 0; c < BS; ++c) b[c] = H<DT>::var("s" + str(Index(k)) + "_" + str(Index(c)), ((k + size_t(c)) % 2 ? -1.0 : 1.0) * (1.5 + 0.625 * double(k) + 0.21875 * c)); vals.push_back(b); }
+  std::vector<DT> flat(n * BS, DT(0)); for(size_t k = 0; k < seq.size(); ++k) for(int c = 0; c < BS; ++c) flat[seq[k] * BS + Index(c)] = vals[k][c];
+  std::string cn = "blocked sparse vector " + cfg; if(!H<DT>::want(cn)) return;
+  H<DT>::begin(cn, "{\"part\":\"sparse vector blocked\"}");
+  int rc = guarded([&] {
+    SV v(n); for(size_t k = 0; k < seq.size(); ++k) v(seq[k], vals[k]);
+    for(Index i = 0; i < n; ++i) { VT b = v(i); for(int c = 0; c < BS; ++c) H<DT>::eq("v(" + str(i) + ")[" + str(Index(c)) + "]", b[c], flat[i * BS + Index(c)]); }
+    DT mx = v.max_element(), mn = v.min_element(), mxa = v.max_abs_element(), mna = v.min_abs_element();
+    bool att_mx = false, att_mn = false, att_mxa = false, att_mna = false;
+    for(Index i = 0; i < n * BS; ++i)
+    {
+      H<DT>::le("max_element >= entry " + str(i), flat[i], mx); H<DT>::le("min_element <= entry " + str(i), mn, flat[i]);
+      H<DT>::le("max_abs_element >= |entry " + str(i) + "|", Math::abs(flat[i]), mxa); H<DT>::le("min_abs_element <= |entry " + str(i) + "|", mna, Math::abs(flat[i]));
+      att_mx = att_mx || H<DT>::sh(mx) == H<DT>::sh(flat[i]); att_mn = att_mn || H<DT>::sh(mn) == H<DT>::sh(flat[i]);
+      att_mxa = att_mxa || H<DT>::sh(mxa) == std::fabs(H<DT>::sh(flat[i])); att_mna = att_mna || H<DT>::sh(mna) == std::fabs(H<DT>::sh(flat[i]));
+    }
+    H<DT>::fact("max_element is attained by an entry of the flattened vector", att_mx, "value " + std::to_string(H<DT>::sh(mx)));
+    H<DT>::fact("min_element is attained by an entry of the flattened vector", att_mn, "value " + std::to_string(H<DT>::sh(mn)));
+    H<DT>::fact("max_abs_element is attained", att_mxa, "value " + std::to_string(H<DT>::sh(mxa)));
+    H<DT>::fact("min_abs_element is attained", att_mna, "value " + std::to_string(H<DT>::sh(mna)));
+  });
+  H<DT>::fact("completes", rc == 0, rc == 2 ? "memory fault" : "abort"); H<DT>::end();
+}
+
+template<typename DT>
 void run_all()
 {
   const Index nmax = Index(g_level > 1 ? 4 : 3), lmax = Index(g_level > 1 ? 3 : 2);
@@ -60,6 +90,7 @@ void run_all()
     std::vector<std::vector<Index>> cur = {{}};
     for(Index l = 1; l <= lmax; ++l) { std::vector<std::vector<Index>> nxt; for(auto& c : cur) for(Index i = 0; i < n; ++i) { auto d = c; d.push_back(i); nxt.push_back(d); seqs.push_back(d); } cur = nxt; }
     for(auto& s : seqs) sv_cases<DT>(n, s);
+    if(n <= 2) for(auto& s : seqs) svb_cases<DT>(n, s);
   }
 }
 
